@@ -293,6 +293,61 @@ Section More.
   Qed.
 End More.
 
+(* ---- validity region: VALID of the reparameterised model = the base model's validity expression
+        evaluated at the translated parameters ---- *)
+Section Valid.
+  Variable V : Type.
+  Variable interp : string -> list V -> V.
+  Variables call_pars base_pars : list string.
+  Variables rho glob : string -> V.
+
+  Lemma tv_other assigns x : wf V call_pars base_pars assigns = true ->
+    translation_vars V interp call_pars base_pars assigns rho glob (COther x) = glob x.
+  Proof.
+    intros Hwf.
+    set (vars := variables V call_pars base_pars assigns). set (lhs := map fst assigns).
+    assert (Hvl : forall x, memb x vars = true -> memb x lhs = true /\ memb x call_pars = false).
+    { intros y Hy. apply memb_In in Hy. unfold vars, variables in Hy. apply in_map_iff in Hy.
+      destruct Hy as [a [<- Ha]]. apply filter_In in Ha. destruct Ha as [Ha Hb].
+      apply andb_true_iff in Hb. destruct Hb as [Hb _]. apply negb_true_iff in Hb. split; auto.
+      apply memb_In. unfold lhs. apply in_map; auto. }
+    pose proof (suffix V interp call_pars lhs vars Hvl assigns [] (cenv0 V rho glob) (env0 V call_pars rho glob)) as S.
+    assert (Hg : Good vars []) by (intros y Hy; discriminate).
+    assert (HR : Rel V call_pars lhs vars [] (cenv0 V rho glob) (env0 V call_pars rho glob)).
+    { unfold Rel, cenv0, env0. repeat split.
+      - intros y Hy. rewrite Hy. reflexivity.
+      - intros y _ Hy. rewrite Hy. reflexivity.
+      - intros y Hy. discriminate. }
+    assert (Hl : forall a, In a assigns -> memb (fst a) lhs = true) by (intros a Ha; apply memb_In; unfold lhs; apply in_map; auto).
+    specialize (S Hg HR Hwf Hl). destruct S as [_ [S2 _]].
+    unfold translation_vars. fold vars.
+    change (fold_left _ assigns (cenv0 V rho glob)) with (fold_left (cstep V interp call_pars vars) assigns (cenv0 V rho glob)).
+    rewrite S2. reflexivity.
+  Qed.
+
+  (* the base parameters as the base model sees them *)
+  Definition base_env (assigns : list (string * expr V string)) (x : string) : V :=
+    if memb x base_pars then
+      (if memb x (map fst assigns) then run_translation V interp assigns (env0 V call_pars rho glob) x else rho x)
+    else glob x.
+
+  Theorem valid_composition assigns (valid : expr V string) :
+    wf V call_pars base_pars assigns = true ->
+    generated_valid V interp call_pars base_pars assigns rho glob valid = eval V interp (base_env assigns) valid.
+  Proof.
+    intros Hwf. unfold generated_valid. revert valid. fix IH 1. intros [v|x|f args]; cbn [esubst eval].
+    - reflexivity.
+    - unfold valid_subs, base_env. destruct (memb x base_pars) eqn:Eb.
+      + destruct (memb x (map fst assigns)) eqn:El.
+        * apply memb_In in El. apply in_map_iff in El. destruct El as [[x' e] [Hx Hin]]. cbn [fst] in Hx. subst x'.
+          apply (composition V interp call_pars base_pars rho glob assigns x e); auto.
+        * apply (untouched V interp call_pars base_pars rho glob assigns x); auto.
+          intros Hin. apply memb_In in Hin. congruence.
+      + cbn [eval]. apply tv_other; auto.
+    - f_equal. induction args as [|a args IHa]; cbn [map]; [reflexivity|]. f_equal; auto.
+  Qed.
+End Valid.
+
 (* ---- derived parameter table: untouched parameters keep their order ---- *)
 Section TableFacts.
   Open Scope list_scope.
